@@ -28,7 +28,7 @@ def evaluate(progs, timeout=3000, dev=()):
     return cases, r
 
 
-def observe(progs, cases, timeout=3000, hang=False):
+def observe(progs, cases, timeout=3000, hang=False, race=False, env=None):
     """run every program on every engine; returns {id: observation record}"""
     work = vf.scratch("verif-lang-")
     path = os.path.join(work, "cases.ndjson")
@@ -44,7 +44,8 @@ def observe(progs, cases, timeout=3000, hang=False):
     hout = path + ".hang"
     run = "TestVerifLangRun$" if not hang else "TestVerifLang(Run|Hang)$"
     rc, txt = vf.go_test("cmd/glyph", ["harness_test.go", "lang_test.go"], run=run,
-                         env={"VERIF_CASES": path, "VERIF_OUT": out, "VERIF_HANG_OUT": hout}, timeout=timeout)
+                         env=dict({"VERIF_CASES": path, "VERIF_OUT": out, "VERIF_HANG_OUT": hout}, **(env or {})), timeout=timeout, race=race)
+    observe.last_output = txt
     res = vf.read_ndjson(out)
     summ = [x for x in res if x.get("summary")]
     if not summ or summ[0]["cases"] != len(progs):
